@@ -35,6 +35,7 @@ def gen_isa(rnd, *, want_macros=None, small=False, allow_numeric_enum=False):
     addr_bits = rnd.choice([8, 12, 16, 16, 16])
     if small:
         addr_bits = 16
+    fmt = rnd.choice(['json', 'json', 'yaml', 'yaml'])
     endian = rnd.choice(['big', 'little'])
     nreg = rnd.randrange(0, 7)
     registers = rnd.sample(REG_POOL, nreg)
@@ -106,6 +107,9 @@ def gen_isa(rnd, *, want_macros=None, small=False, allow_numeric_enum=False):
             'pre_dec': {'type': 'register', 'register': r0, 'bytecode': {'value': 2, 'size': 3},
                         'decorator': {'type': 'minus_minus', 'is_prefix': True}},
             'plain': {'type': 'register', 'register': r0, 'bytecode': {'value': 3, 'size': 3}}}}
+    if fmt == 'yaml':
+        opsets['nenum'] = {'operand_values': {'nenum': {'type': 'numeric_enumeration', 'bytecode': {
+            'size': 3, 'value_dict': {1: 1, 2: 2, 4: 3, 8: 0, 16: 5}}}}}
     # mixed set: register or immediate (exercises the precedence sort inside an operand set)
     if registers:
         mixed = dict(opsets['regs']['operand_values'])
@@ -113,9 +117,11 @@ def gen_isa(rnd, *, want_macros=None, small=False, allow_numeric_enum=False):
         opsets['src'] = {'operand_values': mixed}
 
     kinds = ['n8', 'n16', 'm16', 'en', 'nb', 'n4', 'n12', 'adr', 'rel', 'dn']
+    if fmt == 'yaml':
+        kinds.append('ne')
     if registers:
         kinds += ['reg', 'reg', 'ir', 'src', 'xr', 'ixr', 'dreg']
-    kind_set = {'adr': 'addrs', 'rel': 'rels', 'dn': 'defr', 'xr': 'xregs', 'ixr': 'ixregs', 'dreg': 'dregs',
+    kind_set = {'ne': 'nenum', 'adr': 'addrs', 'rel': 'rels', 'dn': 'defr', 'xr': 'xregs', 'ixr': 'ixregs', 'dreg': 'dregs',
                 'n4': 'imm4', 'n12': 'imm12', 'n8': 'imm8', 'n16': 'imm16', 'm16': 'mem16', 'en': 'enum', 'nb': 'bits', 'reg': 'regs',
                 'ir': 'iregs', 'src': 'src'}
 
@@ -135,7 +141,7 @@ def gen_isa(rnd, *, want_macros=None, small=False, allow_numeric_enum=False):
         nonlocal opcode
         opcode += 1
         # opcode field width chosen so the whole instruction is a whole number of bytes most of the time
-        code_bits = sum(3 for k in ops if k in ('reg', 'ir', 'n8', 'm16', 'en', 'nb', 'src', 'dn', 'xr', 'ixr', 'dreg'))
+        code_bits = sum(3 for k in ops if k in ('reg', 'ir', 'n8', 'm16', 'en', 'nb', 'src', 'dn', 'xr', 'ixr', 'dreg', 'ne'))
         code_bits += sum({'n4': 8, 'n12': 16, 'adr': 4, 'rel': 4}.get(k, 0) for k in ops)
         size = 8 - (code_bits % 8) if code_bits % 8 else 8
         if size < 4:
@@ -165,6 +171,11 @@ def gen_isa(rnd, *, want_macros=None, small=False, allow_numeric_enum=False):
             alt = [rnd.choice(kinds) for _ in range((nops + 1) % 3)]
             cfg['variants'] = [variant(alt)]
             vs.append(alt)
+        if ops == ['reg'] and rnd.random() < 0.4:
+            # the same mnemonic written without any operand matches a specific "empty" operand
+            cfg['operands']['specific_operands'] = {'none': {'list': {'nothing': {
+                'type': 'empty', 'bytecode': {'value': 7, 'size': 3}}}}}
+            vs.append([])
         instructions[m] = cfg
         sigs[m] = vs
 
@@ -187,6 +198,12 @@ def gen_isa(rnd, *, want_macros=None, small=False, allow_numeric_enum=False):
             else:
                 macros[name] = [{'operands': {'count': 0}, 'instructions': ['nop', 'nop']}]
                 msigs[name] = [[]]
+        rcands = [m for m in mnems if sigs[m][0] == ['reg']]
+        if rcands and registers and 'rr2' not in instructions:
+            tgt = rnd.choice(rcands)
+            macros['rr2'] = [{'operands': {'count': 1, 'operand_sets': {'list': ['regs']}},
+                              'instructions': [f'{tgt} @OP(0)', f'{tgt} @REG(0)']}]
+            msigs['rr2'] = [['reg']]
 
     predefined = {}
     consts = {}
@@ -221,7 +238,8 @@ def gen_isa(rnd, *, want_macros=None, small=False, allow_numeric_enum=False):
     info = {'addr_bits': addr_bits, 'endian': endian, 'registers': registers, 'sigs': sigs, 'macros': msigs,
             'consts': consts, 'zones': zones, 'data': data, 'symbols': symbols, 'origin': origin,
             'page_size': page_size, 'embedded': embedded, 'enum_keys': enum_keys, 'width': width,
-            'ireg': registers[:3]}
+            'ireg': registers[:3], 'fmt': fmt, 'name': general.get('identifier', {}).get('name', 'isa').replace(' ', '_'),
+            'version': general.get('identifier', {}).get('version', '0.0.1')}
     return isa, info
 
 
@@ -327,6 +345,8 @@ class ProgGen:
             return rnd.choice(info['enum_keys'])
         if kind == 'nb':
             return str(rnd.randrange(0, 8))
+        if kind == 'ne':
+            return rnd.choice(['1', '2', '4', '8', '16', '2*2', '$10'])
         if kind == 'adr':
             top = (1 << info['addr_bits']) - 1
             if self.labels and rnd.random() < 0.6:
@@ -336,7 +356,7 @@ class ProgGen:
             # relative to something close by: the most recently emitted label, or a small literal address near origin
             if self.recent_label:
                 return '{' + self.recent_label + '}'
-            return '{' + str(info['origin'] + rnd.randrange(0, 8)) + '}'
+            return '{' + str(getattr(self, 'cur_base', info['origin']) + rnd.randrange(0, 8)) + '}'
         if kind == 'dn':
             return f'[[{self.expr16()}]]'
         if kind == 'xr':
@@ -368,6 +388,8 @@ class ProgGen:
 
     def data_line(self):
         rnd = self.rnd
+        if self.info['embedded'] and rnd.random() < 0.2:
+            return '"' + rnd.choice(['emb', 'two words', 'Z9']) + '"'
         c = rnd.randrange(8)
         if c == 0:
             return '.byte ' + ', '.join(self.expr8() for _ in range(rnd.randrange(1, 5)))
@@ -407,8 +429,23 @@ class ProgGen:
                 self.consts[name] = val
         if rnd.random() < 0.3:
             lines.append('; generated program')
+        if rnd.random() < 0.3:
+            # language requirement that the ISA satisfies
+            req = rnd.choice(['', f' >= {self.info["version"]}', ' >= 0.0.1', f' == {self.info["version"]}', ' < 99.0.0'])
+            lines.insert(0, f'#require "{self.info["name"]}{req}"')
+        org_at = {}
+        if self.use_org and self.info['addr_bits'] >= 12 and rnd.random() < 0.3:
+            # forward origins far enough apart that nothing generated here can overlap
+            for j, pos in enumerate(sorted(rnd.sample(range(1, max(2, n)), min(2, max(1, n - 1))))):
+                org_at[pos] = self.info['origin'] + 0x400 * (j + 1)
         positions = sorted(rnd.sample(range(n), min(len(pending), n)))
         for i in range(n):
+            if i in org_at:
+                lines.append(f'  .org ${org_at[i]:x}')
+                local_ok = False
+                locals_here = []
+                self.recent_label = None
+                self.cur_base = org_at[i]
             if positions and i == positions[0]:
                 positions.pop(0)
                 lab = pending.pop()
@@ -448,6 +485,11 @@ class ProgGen:
                              else '  ' + self.statement())
             else:
                 lines.append('; ' + rnd.choice(['note', 'nop', 'todo: ld a, 5']))
+        if self.use_zones and self.info['zones'] and rnd.random() < 0.3:
+            z = rnd.choice(sorted(self.info['zones']))
+            lines.append(f'  .org {rnd.randrange(0, 8)} "{z}"')
+            for _ in range(rnd.randrange(1, 3)):
+                lines.append('  .byte ' + self.expr8())
         return lines
 
 
